@@ -5,7 +5,6 @@ cd "$(dirname "$0")"
 export GOFLAGS=-mod=mod GOPROXY=off
 unset GOSUMDB
 mkdir -p .build
-export GOCACHE="$(pwd)/.build/gocache"
 cp -n /repo/go.sum harness/go.sum 2>/dev/null || true
 (cd harness && go test -c -tags verif -o ../.build/props.test ./props/) || \
   (cd harness && GOTOOLCHAIN=local go1.26.8 test -c -tags verif -o ../.build/props.test ./props/)
